@@ -5,10 +5,18 @@
 //! category assignment of Blocker::new vs `category_of`; Rust's `str::parse::<i32>` vs `parse_i32`.
 //! Oracle: an independent Rust restatement (arg-max set over non-excepted candidates, resource
 //! gate, blocking side) run on the same inputs.
+//! Loading paths: every input is evaluated through the batch engine and along a second path
+//! (empty Blocker + add_filter per rule, Blocker::new on a prefix + add_filter for the rest, in
+//! several orders; resources through use_resources or one add_resource call each); `effective`
+//! states which rules a path puts in force, the oracle and the model are applied to those, and the
+//! verdict is compared with a batch engine over the same rules.  Sequences of add_resource calls
+//! with rejected calls and re-used identifiers are compared with the model's from_resources /
+//! add_resource and with `first successful add that declared the identifier` (run_add_seq).
+use adblock::blocker::{Blocker, BlockerOptions, BlockerResult};
 use adblock::filters::network::{NetworkFilter, NetworkFilterMaskHelper, NetworkMatchable};
 use adblock::regex_manager::RegexManager;
 use adblock::request::Request;
-use adblock::resources::{MimeType, PermissionMask, Resource, ResourceType};
+use adblock::resources::{MimeType, PermissionMask, Resource, ResourceStorage, ResourceType};
 use adblock::Engine;
 use implrun::*;
 use serde_json::{json, Value};
@@ -158,6 +166,194 @@ fn gen_store(r: &mut Rng) -> Vec<Res> {
     v
 }
 
+/// identifiers of the add_resource sequences (few, so that names and aliases collide all the time);
+/// `y:3` looks like a priority suffix and can only be reached by a direct lookup
+const SEQ_IDS: &[&str] = &["a.js", "b.js", "c.txt", "d.gif", "e", "f", "g.js", "y:3"];
+/// identifiers the redirect rules of the main loop name (see NAMES)
+const RULE_IDS: &[&str] = &["noop.js", "noopjs", "noop", "noop.txt", "nooptext", "1x1.gif", "style.css", "other", "sec"];
+
+/// A sequence of add_resource calls.  Calls collide with what is stored on the name, on the first
+/// alias or on a later alias of a multi-alias resource (directed: all other identifiers of the call
+/// are fresh, so the call is rejected for that one identifier only), or are rejected for their
+/// content; the calls after a rejected one re-use its name and aliases as names and as aliases.
+/// Every call carries its own content, so a lookup tells which call it answers with.
+fn gen_add_seq(r: &mut Rng, pool: &[&str]) -> Vec<Res> {
+    let n = r.range(3, 9);
+    let mut seq: Vec<Res> = vec![];
+    let mut reuse: Vec<String> = vec![]; // identifiers of the most recent rejected call
+    let mut fresh = 0usize;
+    for i in 0..n {
+        let acc = spec_accepts(&seq);
+        let taken: Vec<String> = seq.iter().zip(acc.iter()).filter(|p| *p.1).flat_map(|p| std::iter::once(p.0.name.clone()).chain(p.0.aliases.iter().cloned())).collect();
+        let mut new_id = |r: &mut Rng| {
+            // mostly an identifier nobody holds
+            if r.chance(1, 3) {
+                fresh += 1;
+                format!("u{}", fresh)
+            } else {
+                let free: Vec<&&str> = pool.iter().filter(|p| !taken.iter().any(|t| t == **p)).collect();
+                if free.is_empty() { fresh += 1; format!("u{}", fresh) } else { free[r.below(free.len())].to_string() }
+            }
+        };
+        let (name, aliases): (String, Vec<String>) = if !reuse.is_empty() && r.chance(2, 3) {
+            // re-use what the rejected call declared: as name, as aliases, mixed with other identifiers
+            let mut ids: Vec<String> = reuse.clone();
+            for j in (1..ids.len()).rev() {
+                let k = r.below(j + 1);
+                ids.swap(j, k);
+            }
+            ids.truncate(r.range(1, 3));
+            if r.chance(1, 3) {
+                ids.push(new_id(r));
+            }
+            if r.chance(1, 2) {
+                ids.reverse();
+            }
+            let name = ids.remove(0);
+            (name, ids)
+        } else if !taken.is_empty() && r.chance(1, 2) {
+            // directed collision at exactly one position
+            let hit = taken[r.below(taken.len())].clone();
+            let na = r.range(0, 4);
+            let pos = r.below(na + 1); // 0 = name, 1 = first alias, >1 = later alias
+            let mut ids: Vec<String> = (0..=na).map(|_| new_id(r)).collect();
+            ids[pos] = hit;
+            let name = ids.remove(0);
+            (name, ids)
+        } else {
+            let name = if r.chance(1, 4) { new_id(r) } else { r.pick(pool).to_string() };
+            let na = r.pick(&[0usize, 1, 1, 2, 2, 3, 4]);
+            let mut al: Vec<String> = (0..na).map(|_| if r.chance(1, 3) { new_id(r) } else { r.pick(pool).to_string() }).collect();
+            if r.chance(1, 12) {
+                al.push(name.clone()); // own name as alias
+            }
+            if r.chance(1, 12) && !al.is_empty() {
+                al.push(al[0].clone()); // the same alias twice
+            }
+            (name, al)
+        };
+        let mime = r.pick(&["text/plain", "text/plain", "application/javascript", "application/javascript", "image/gif", "text/css", "application/x-unknown", "fn/javascript"]);
+        let mut x = Res { name: name.clone(), aliases, template: false, mime: mime.into(), bytes: format!("add#{} {}", i, name).into_bytes(), bad_base64: false, deps: vec![], permission: 0 };
+        match r.below(16) {
+            0 => x.bad_base64 = true,                                     // rejected for its content
+            1 => x.deps = vec!["a.js".into()],                             // rejected unless a javascript type
+            2 => { x.bytes = vec![0xe9, 0x28, i as u8] }                   // rejected if the type is textual
+            3 => x.permission = 1,                                         // stored, never served
+            4 => { x.template = true; x.mime = String::new() }             // stored, never served
+            _ => {}
+        }
+        seq.push(x);
+        let ok = *spec_accepts(&seq).last().unwrap();
+        if ok {
+            reuse.clear();
+        } else {
+            let x = seq.last().unwrap();
+            reuse = std::iter::once(x.name.clone()).chain(x.aliases.iter().cloned()).filter(|i| !taken.iter().any(|t| t == i)).collect();
+            reuse.dedup();
+        }
+    }
+    seq
+}
+
+/// why a call of a sequence is rejected / what an accepted call re-uses (generator statistics)
+fn classify_adds(seq: &[Res]) -> Vec<&'static str> {
+    let acc = spec_accepts(seq);
+    let mut taken: HashSet<String> = HashSet::new();
+    let mut rejected_ids: HashSet<String> = HashSet::new();
+    let mut out = vec![];
+    for (x, ok) in seq.iter().zip(acc.iter()) {
+        let ids: Vec<String> = std::iter::once(x.name.clone()).chain(x.aliases.iter().cloned()).collect();
+        if *ok {
+            out.push(if ids.iter().any(|i| rejected_ids.contains(i)) { "seq_accepted_reusing_identifiers_of_a_rejected_add" } else { "seq_accepted" });
+            taken.extend(ids);
+        } else {
+            out.push(match ids.iter().position(|i| taken.contains(i)) {
+                Some(0) => "seq_rejected_collision_on_name",
+                Some(1) => "seq_rejected_collision_on_first_alias",
+                Some(_) => "seq_rejected_collision_on_later_alias",
+                None => "seq_rejected_for_content_or_dependencies",
+            });
+            rejected_ids.extend(ids.into_iter().filter(|i| !taken.contains(i)));
+        }
+    }
+    out
+}
+
+/// Runs a sequence of add_resource calls on the crate and states the property on it:
+/// every call answers Ok exactly when the specification accepts it; after EVERY call (accepted or
+/// rejected) each identifier that occurs anywhere in the sequence resolves to the resource of the first
+/// successful add that declared it; the same through from_resources, and through an Engine
+/// (add_resource + one redirect-rule per identifier).  Returns (Ok flags, final lookups, state after
+/// the call `probe`, first failure).
+fn run_add_seq(seq: &[Res], idents: &[String], probe: usize) -> (Vec<bool>, Vec<Option<String>>, Vec<Option<String>>, Option<String>) {
+    let want = spec_accepts(seq);
+    let mut fail: Option<String> = None;
+    let mut st = ResourceStorage::default();
+    let mut flags = vec![];
+    let mut at_probe = vec![];
+    for (i, x) in seq.iter().enumerate() {
+        let before: Vec<Option<String>> = idents.iter().map(|id| st.get_redirect_resource(id)).collect();
+        let ok = st.add_resource(x.to_resource()).is_ok();
+        flags.push(ok);
+        if ok != want[i] && fail.is_none() {
+            fail = Some(format!("add_resource call #{} (name {:?}, aliases {:?}) answered {} but the specification says {}", i, x.name, x.aliases, if ok { "Ok" } else { "Err" }, if want[i] { "accepted" } else { "rejected" }));
+        }
+        let after: Vec<Option<String>> = idents.iter().map(|id| st.get_redirect_resource(id)).collect();
+        if !ok && after != before && fail.is_none() {
+            let k = (0..idents.len()).find(|k| after[*k] != before[*k]).unwrap();
+            fail = Some(format!("rejected add_resource call #{} changed the answer for {:?} from {:?} to {:?}", i, idents[k], before[k], after[k]));
+        }
+        for (k, id) in idents.iter().enumerate() {
+            let spec = spec_gate(&seq[..=i], id);
+            if after[k] != spec && fail.is_none() {
+                fail = Some(format!("after call #{} get_redirect_resource({:?}) = {:?} but the first successful add declaring it gives {:?}", i, id, after[k], spec));
+            }
+        }
+        if i == probe {
+            at_probe = after.clone();
+        }
+    }
+    let last: Vec<Option<String>> = idents.iter().map(|id| st.get_redirect_resource(id)).collect();
+    let whole = ResourceStorage::from_resources(seq.iter().map(|x| x.to_resource()));
+    for (k, id) in idents.iter().enumerate() {
+        let w = whole.get_redirect_resource(id);
+        if w != last[k] && fail.is_none() {
+            fail = Some(format!("from_resources answers {:?} for {:?} but the sequence of add_resource calls {:?}", w, id, last[k]));
+        }
+    }
+    // through an engine: one redirect-rule per identifier, resources added one call at a time
+    let rules: Vec<String> = idents.iter().enumerate().map(|(k, id)| format!("/p{}q/$redirect-rule={}", k, id)).collect();
+    let mut engine = Engine::from_rules_parametrised(rules.iter(), Default::default(), true, false);
+    for x in seq {
+        let _ = engine.add_resource(x.to_resource());
+    }
+    for (k, id) in idents.iter().enumerate() {
+        if id.is_empty() || id.contains(',') || id.contains('$') {
+            continue;
+        }
+        let Ok(req) = Request::new(&format!("https://foo.com/p{}q/x", k), "https://example.com/", "script") else { continue };
+        let got = engine.check_network_request(&req).redirect;
+        let spec = spec_gate(seq, &spec_split(id).0);
+        if got != spec && fail.is_none() {
+            fail = Some(format!("engine redirect for $redirect-rule={} is {:?} but the specification gives {:?}", id, got, spec));
+        }
+    }
+    (flags, last, at_probe, fail)
+}
+
+fn seq_idents(seq: &[Res]) -> Vec<String> {
+    let mut v: Vec<String> = vec![];
+    for x in seq {
+        for i in std::iter::once(&x.name).chain(x.aliases.iter()) {
+            if !v.contains(i) {
+                v.push(i.clone());
+            }
+        }
+    }
+    v.push("missing.js".into());
+    v
+}
+
 const NAMES: &[&str] = &[
     "noop.js", "noop.js", "noop.js", "noop.txt", "noop.txt", "1x1.gif", "1x1.gif", "style.css", "noopjs", "noopjs", "noop.js", "noop.js", "noopjs", "noop", "noop.txt", "nooptext", "1x1.gif", "1x1-transparent.gif", "fn.js", "tmpl.js", "tmpl",
     "perm.js", "permjs", "perm.txt", "missing.js", "unknown.bin", "style.css", "other", "sec", "second.txt", "bad.js", "latin1.js",
@@ -273,6 +469,7 @@ fn gen_url(r: &mut Rng) -> String {
 }
 
 // ------------------------------------------------------------------ case
+#[derive(Clone)]
 struct Case {
     rules: Vec<String>,
     store: Vec<Res>,
@@ -281,11 +478,19 @@ struct Case {
     source: String,
     ty: String,
     optimize: bool,
+    /// Loading path of the rules.  `None`: the whole list through Engine::from_rules_parametrised.
+    /// `Some(k)`: the first k rules (in the order of `rules`) through Blocker::new, every further
+    /// rule through one Blocker::add_filter call, in list order (k = 0: empty Blocker + add_filter only).
+    batch: Option<usize>,
+    /// Loading path of the resources.  false: use_resources / ResourceStorage::from_resources on the
+    /// whole list; true: one add_resource call per resource, in list order (rejected calls included).
+    store_by_add: bool,
 }
 impl Case {
     fn json(&self) -> Value {
         json!({"rules": self.rules, "resources": self.store.iter().map(|x| x.json()).collect::<Vec<_>>(), "tags": self.tags,
-               "url": self.url, "source": self.source, "type": self.ty, "optimize": self.optimize})
+               "url": self.url, "source": self.source, "type": self.ty, "optimize": self.optimize,
+               "load": {"batch": self.batch, "store_by_add": self.store_by_add}})
     }
     fn from_json(v: &Value) -> Case {
         let strs = |x: &Value| -> Vec<String> { x.as_array().map(|a| a.iter().map(|s| s.as_str().unwrap_or("").to_string()).collect()).unwrap_or_default() };
@@ -297,6 +502,8 @@ impl Case {
             source: v["source"].as_str().unwrap_or("").to_string(),
             ty: v["type"].as_str().unwrap_or("").to_string(),
             optimize: v["optimize"].as_bool().unwrap_or(true),
+            batch: v["load"]["batch"].as_u64().map(|k| k as usize),
+            store_by_add: v["load"]["store_by_add"].as_bool().unwrap_or(false),
         }
     }
 }
@@ -317,7 +524,13 @@ struct Outcome {
     /// like `matching`, plus the matching redirect rules whose tag is ENABLED (the crate never serves them)
     matching_with_enabled_tags: Vec<(bool, Option<String>, String)>,
     tagged_redirect_opt_matches: bool, // a matching `redirect=` rule with an enabled tag (known class)
-    shapes: Vec<(String, u32, bool, &'static str, bool)>, // line, mask, tagged, category, in redirects
+    shapes: Vec<(String, u32, bool, &'static str, bool, bool)>, // line, mask, tagged, category, in redirects, entered through add_filter
+    /// (redirect, matched, important) of a batch engine over the rules in force (add_filter paths only)
+    batch_twin: Option<(Option<String>, bool, bool)>,
+    /// first add_filter / add_resource answer contradicting the expectation
+    misbehaviour: Option<String>,
+    /// add_filter calls of the path: (line, expected answer, is redirect rule, is exception, blocks too)
+    adds: Vec<(String, AddAnswer, bool, bool, bool)>,
     /// (added rule, redirect, matched) of the same list plus one plain exception / blocking / important rule
     variants: Vec<(String, Option<String>, bool)>,
 }
@@ -329,24 +542,152 @@ fn active_tag(f: &NetworkFilter, tags: &[String]) -> bool {
     }
 }
 
+fn parse_line(l: &str) -> Option<(String, NetworkFilter)> {
+    match adblock::lists::parse_filter(l, true, Default::default()) {
+        Ok(adblock::lists::ParsedFilter::Network(f)) => Some((l.trim().to_string(), f)),
+        _ => None,
+    }
+}
+
+/// What one Blocker::add_filter call of the loading path has to answer.
+#[derive(Clone, Copy, PartialEq, Debug)]
+enum AddAnswer {
+    Accepted,
+    RefusedBadfilter,
+    RefusedDuplicate,
+}
+
+/// The rule set a loading path puts in force (decided here, not by the answers of add_filter):
+/// the batch part is what Blocker::new keeps of it ($badfilter rules cancel inside the batch only);
+/// an add_filter call is refused iff the rule is a $badfilter rule or the very same line is in force.
+struct Effective {
+    /// rules in force, in the order they entered the blocker
+    live: Vec<(String, NetworkFilter)>,
+    /// how many of `live` came through the batch constructor
+    from_batch: usize,
+    /// one entry per parsable rule of the add_filter part: line, rule, expected answer
+    adds: Vec<(String, NetworkFilter, AddAnswer)>,
+}
+
+fn effective(c: &Case) -> Effective {
+    let k = c.batch.unwrap_or(c.rules.len()).min(c.rules.len());
+    let parsed: Vec<(String, NetworkFilter)> = c.rules[..k].iter().filter_map(|l| parse_line(l)).collect();
+    let bad_ids: HashSet<u64> = parsed.iter().filter(|(_, f)| f.is_badfilter()).map(|(_, f)| f.get_id_without_badfilter()).collect();
+    let mut live: Vec<(String, NetworkFilter)> = parsed.into_iter().filter(|(_, f)| !f.is_badfilter() && !bad_ids.contains(&f.get_id())).collect();
+    let from_batch = live.len();
+    let mut adds = vec![];
+    for l in &c.rules[k..] {
+        let Some((line, f)) = parse_line(l) else { continue };
+        let ans = if f.is_badfilter() {
+            AddAnswer::RefusedBadfilter
+        } else if live.iter().any(|x| x.0 == line) {
+            AddAnswer::RefusedDuplicate
+        } else {
+            AddAnswer::Accepted
+        };
+        adds.push((line.clone(), f.clone(), ans));
+        if ans == AddAnswer::Accepted {
+            live.push((line, f));
+        }
+    }
+    Effective { live, from_batch, adds }
+}
+
+enum Loaded {
+    Eng(Engine),
+    Blk(Blocker, ResourceStorage),
+}
+impl Loaded {
+    fn check(&self, req: &Request) -> BlockerResult {
+        match self {
+            Loaded::Eng(e) => e.check_network_request(req),
+            Loaded::Blk(b, rs) => b.check(req, rs),
+        }
+    }
+    fn blocker(&self) -> &Blocker {
+        match self {
+            Loaded::Eng(e) => e.verif_blocker(),
+            Loaded::Blk(b, _) => b,
+        }
+    }
+}
+
+struct LoadLog {
+    /// did the i-th add_filter call of `Effective::adds` answer Ok
+    add_ok: Vec<bool>,
+    /// first answer of add_filter / add_resource that contradicts the expectation
+    misbehaviour: Option<String>,
+}
+
+/// Loads rules, resources and tags along the paths the case names; `extra` is one more rule loaded last
+/// (appended to the list on the batch path, one more add_filter call otherwise).
+fn load(c: &Case, eff: &Effective, extra: Option<&str>, optimize: bool) -> (Loaded, LoadLog) {
+    let mut log = LoadLog { add_ok: vec![], misbehaviour: None };
+    let tags: Vec<&str> = c.tags.iter().map(|s| s.as_str()).collect();
+    let want_res = spec_accepts(&c.store);
+    let note_res = |i: usize, ok: bool, log: &mut LoadLog| {
+        if ok != want_res[i] && log.misbehaviour.is_none() {
+            log.misbehaviour = Some(format!("add_resource call #{} ({:?}) answered {} but the specification says {}", i, c.store[i].name, if ok { "Ok" } else { "Err" }, if want_res[i] { "accepted" } else { "rejected" }));
+        }
+    };
+    match c.batch {
+        None => {
+            let mut rules = c.rules.clone();
+            rules.extend(extra.map(|s| s.to_string()));
+            let mut engine = Engine::from_rules_parametrised(rules.iter(), Default::default(), true, optimize);
+            if c.store_by_add {
+                for (i, x) in c.store.iter().enumerate() {
+                    let ok = engine.add_resource(x.to_resource()).is_ok();
+                    note_res(i, ok, &mut log);
+                }
+            } else {
+                engine.use_resources(c.store.iter().map(|x| x.to_resource()));
+            }
+            engine.use_tags(&tags);
+            (Loaded::Eng(engine), log)
+        }
+        Some(k) => {
+            let k = k.min(c.rules.len());
+            let prefix: Vec<NetworkFilter> = c.rules[..k].iter().filter_map(|l| parse_line(l)).map(|x| x.1).collect();
+            let mut b = Blocker::new(prefix, &BlockerOptions { enable_optimizations: optimize });
+            for (line, f, want) in &eff.adds {
+                let got = b.add_filter(f.clone());
+                log.add_ok.push(got.is_ok());
+                let wrong = match want {
+                    AddAnswer::Accepted => got.is_err(),
+                    AddAnswer::RefusedBadfilter => got.is_ok(),
+                    // filter_exists is best effort (an optimised bucket may hide a duplicate): a second copy is harmless
+                    AddAnswer::RefusedDuplicate => false,
+                };
+                if wrong && log.misbehaviour.is_none() {
+                    log.misbehaviour = Some(format!("add_filter({:?}) answered {:?}, expected {:?}", line, got, want));
+                }
+            }
+            if let Some((_, f)) = extra.and_then(parse_line) {
+                let _ = b.add_filter(f);
+            }
+            b.use_tags(&tags);
+            let rs = if c.store_by_add {
+                let mut rs = ResourceStorage::default();
+                for (i, x) in c.store.iter().enumerate() {
+                    let ok = rs.add_resource(x.to_resource()).is_ok();
+                    note_res(i, ok, &mut log);
+                }
+                rs
+            } else {
+                ResourceStorage::from_resources(c.store.iter().map(|x| x.to_resource()))
+            };
+            (Loaded::Blk(b, rs), log)
+        }
+    }
+}
+
 fn eval(c: &Case, want_shapes: bool) -> Option<Outcome> {
     let req = Request::new(&c.url, &c.source, &c.ty).ok()?;
-    let mut engine = Engine::from_rules_parametrised(c.rules.iter(), Default::default(), true, c.optimize);
-    engine.use_resources(c.store.iter().map(|x| x.to_resource()));
-    let tags: Vec<&str> = c.tags.iter().map(|s| s.as_str()).collect();
-    engine.use_tags(&tags);
-    let res = engine.check_network_request(&req);
-
-    let parsed: Vec<(String, NetworkFilter)> = c
-        .rules
-        .iter()
-        .filter_map(|l| match adblock::lists::parse_filter(l, true, Default::default()) {
-            Ok(adblock::lists::ParsedFilter::Network(f)) => Some((l.trim().to_string(), f)),
-            _ => None,
-        })
-        .collect();
-    let bad_ids: HashSet<u64> = parsed.iter().filter(|(_, f)| f.is_badfilter()).map(|(_, f)| f.get_id_without_badfilter()).collect();
-    let live: Vec<&(String, NetworkFilter)> = parsed.iter().filter(|(_, f)| !f.is_badfilter() && !bad_ids.contains(&f.get_id())).collect();
+    let eff = effective(c);
+    let (loaded, log) = load(c, &eff, None, c.optimize);
+    let res = loaded.check(&req);
+    let live: Vec<&(String, NetworkFilter)> = eff.live.iter().collect();
 
     // per-rule scan
     let mut scan: Vec<(bool, Option<String>, String)> = vec![];
@@ -395,9 +736,15 @@ fn eval(c: &Case, want_shapes: bool) -> Option<Outcome> {
         }
     }
 
-    // delivery order: a NetworkFilterList built like Blocker::new builds `redirects`
-    let redirect_filters: Vec<NetworkFilter> = live.iter().filter(|(_, f)| f.is_redirect()).map(|(_, f)| f.clone()).collect();
-    let replica = adblock::verif_hooks::FilterList::new(redirect_filters, c.optimize);
+    // delivery order: a NetworkFilterList built the way the loading path builds `redirects`
+    // (Blocker::new for the batch part, then one add_filter per accepted run-time rule)
+    let redirect_filters: Vec<NetworkFilter> = eff.live[..eff.from_batch].iter().filter(|(_, f)| f.is_redirect()).map(|(_, f)| f.clone()).collect();
+    let mut replica = adblock::verif_hooks::FilterList::new(redirect_filters, c.optimize);
+    for ((_, f, _), ok) in eff.adds.iter().zip(log.add_ok.iter()) {
+        if *ok && f.is_redirect() {
+            replica.add_filter(f.clone());
+        }
+    }
     let mut rm = RegexManager::default();
     let delivered = replica.check_all(&req, &HashSet::new(), &mut rm);
     let delivered_lines: BTreeSet<String> = delivered.iter().filter_map(|d| d.raw_line.clone()).collect();
@@ -421,9 +768,10 @@ fn eval(c: &Case, want_shapes: bool) -> Option<Outcome> {
 
     let mut shapes = vec![];
     if want_shapes {
-        let plain = Engine::from_rules_parametrised(c.rules.iter(), Default::default(), true, false);
-        let dump = adblock::verif_hooks::dump_engine_blocker(&plain);
-        for (line, f) in live.iter().map(|x| (&x.0, &x.1)) {
+        // the lists of an unoptimised blocker loaded along the same path
+        let (plain, _) = load(c, &eff, None, false);
+        let dump = adblock::verif_hooks::dump_blocker(plain.blocker());
+        for (idx, (line, f)) in live.iter().map(|x| (&x.0, &x.1)).enumerate() {
             let mut cat = "CatNowhere";
             let mut in_redirects = false;
             for (name, buckets) in &dump.lists {
@@ -445,22 +793,31 @@ fn eval(c: &Case, want_shapes: bool) -> Option<Outcome> {
             if dump.tagged_filters_all.iter().any(|d| d.raw_line.as_deref() == Some(line.as_str())) {
                 cat = "CatTagged";
             }
-            shapes.push((line.clone(), adblock::verif_hooks::dump_filter(f).mask, adblock::verif_hooks::filter_tag(f).is_some(), cat, in_redirects));
+            shapes.push((line.clone(), adblock::verif_hooks::dump_filter(f).mask, adblock::verif_hooks::filter_tag(f).is_some(), cat, in_redirects, idx >= eff.from_batch));
         }
     }
 
     let mut variants = vec![];
     for extra in [format!("@@||{}^", req.hostname), format!("||{}^", req.hostname), format!("||{}^$important", req.hostname)] {
-        let mut rules2 = c.rules.clone();
-        rules2.push(extra.clone());
-        let mut e2 = Engine::from_rules_parametrised(rules2.iter(), Default::default(), true, c.optimize);
-        e2.use_resources(c.store.iter().map(|x| x.to_resource()));
-        e2.use_tags(&tags);
-        let r2 = e2.check_network_request(&req);
+        let (l2, _) = load(c, &eff, Some(&extra), c.optimize);
+        let r2 = l2.check(&req);
         variants.push((extra, r2.redirect, r2.matched));
     }
 
+    // the same rules in force handed to a batch engine (same resources through use_resources, same tags)
+    let batch_twin = c.batch.map(|_| {
+        let twin = Case { rules: eff.live.iter().map(|x| x.0.clone()).collect(), store: c.store.clone(), tags: c.tags.clone(), url: c.url.clone(), source: c.source.clone(), ty: c.ty.clone(), optimize: c.optimize, batch: None, store_by_add: false };
+        let te = effective(&twin);
+        let (l, _) = load(&twin, &te, None, c.optimize);
+        let r = l.check(&req);
+        (r.redirect, r.matched, r.important)
+    });
+    let adds = eff.adds.iter().map(|(l, f, a)| (l.clone(), *a, f.is_redirect(), f.is_exception(), f.also_block_redirect())).collect();
+
     Some(Outcome {
+        batch_twin,
+        misbehaviour: log.misbehaviour,
+        adds,
         variants,
         supported: req.is_supported,
         matching,
@@ -527,20 +884,27 @@ fn spec_mime_name(m: &str) -> &'static str {
         _ => "application/octet-stream",
     }
 }
-/// the resource a name denotes: first accepted resource owning the identifier
-fn spec_lookup<'a>(store: &'a [Res], ident: &str) -> Option<&'a Res> {
+/// which add_resource calls of a sequence succeed: the resource is well-formed (a template, or MIME
+/// content that decodes - as UTF-8 where the type is textual - with dependencies only on the two
+/// javascript types) and none of its identifiers (name, aliases) was declared by an earlier SUCCESSFUL call
+fn spec_accepts(seq: &[Res]) -> Vec<bool> {
     let mut taken: HashSet<&str> = HashSet::new();
-    let mut loaded: Vec<&Res> = vec![];
-    for x in store {
+    let mut out = vec![];
+    for x in seq {
         let valid = x.template || (x.content_ok() && (x.deps.is_empty() || matches!(x.mime.as_str(), "application/javascript" | "fn/javascript")));
         let idents: Vec<&str> = std::iter::once(x.name.as_str()).chain(x.aliases.iter().map(|a| a.as_str())).collect();
-        if !valid || idents.iter().any(|i| taken.contains(i)) {
-            continue;
+        let ok = valid && !idents.iter().any(|i| taken.contains(i));
+        if ok {
+            taken.extend(idents);
         }
-        taken.extend(idents);
-        loaded.push(x);
+        out.push(ok);
     }
-    loaded.iter().find(|x| x.name == ident).or_else(|| loaded.iter().find(|x| x.aliases.iter().any(|a| a == ident))).copied()
+    out
+}
+/// the resource an identifier denotes: that of the FIRST successful add that declared it as name or alias
+fn spec_lookup<'a>(seq: &'a [Res], ident: &str) -> Option<&'a Res> {
+    let acc = spec_accepts(seq);
+    seq.iter().zip(acc).find(|(x, ok)| *ok && (x.name == ident || x.aliases.iter().any(|a| a == ident))).map(|p| p.0)
 }
 fn spec_gate(store: &[Res], ident: &str) -> Option<String> {
     let x = spec_lookup(store, ident)?;
@@ -563,9 +927,22 @@ fn reference(supported: bool, matching: &[(bool, Option<String>, String)], store
 
 /// runs the oracle; returns (class, message) of a failure
 fn oracle(c: &Case, o: &Outcome) -> Option<(Option<&'static str>, String)> {
+    if let Some(m) = &o.misbehaviour {
+        return Some((None, m.clone()));
+    }
     let allowed = reference(o.supported, &o.matching, &c.store);
     if !allowed.contains(&o.got_redirect) {
         return Some((None, format!("redirect {:?} but the specification allows {:?}", o.got_redirect, allowed)));
+    }
+    // the loading path is irrelevant: a batch engine over the rules in force answers the same
+    // (ties between different resources at the top priority are exempt: bucket order may differ)
+    if let Some((red, matched, important)) = &o.batch_twin {
+        if allowed.len() == 1 && red != &o.got_redirect {
+            return Some((None, format!("redirect {:?} after loading through add_filter (batch part {:?}) but {:?} from a batch engine over the same rules", o.got_redirect, c.batch, red)));
+        }
+        if (*matched, *important) != (o.got_matched, o.got_important) {
+            return Some((None, format!("matched/important {:?} after loading through add_filter (batch part {:?}) but {:?} from a batch engine over the same rules", (o.got_matched, o.got_important), c.batch, (matched, important))));
+        }
     }
     // the redirect does not depend on the blocking side: adding a plain exception, a plain blocking
     // rule or an $important rule for the request's host changes `matched` at most.  (Ties between
@@ -638,8 +1015,28 @@ fn main() {
             }
             return;
         }
+        if let Some(adds) = v["replay"]["adds"].as_array() {
+            let seq: Vec<Res> = adds.iter().map(Res::from_json).collect();
+            let idents = seq_idents(&seq);
+            let probe = (v["replay"]["probe"].as_u64().unwrap_or(0) as usize).min(seq.len().saturating_sub(1));
+            let (flags, last, _, fail) = run_add_seq(&seq, &idents, probe);
+            println!("add_resource answers: {:?}; specification: {:?}", flags, spec_accepts(&seq));
+            for (id, got) in idents.iter().zip(last.iter()) {
+                println!("  {:?}: impl {:?}  spec {:?}", id, got, spec_gate(&seq, id));
+            }
+            if let Some(what) = fail {
+                println!("{}", what);
+                println!("VIOLATION property=C13 replay={}", p.display());
+                std::process::exit(1);
+            }
+            return;
+        }
         let c = Case::from_json(&v["replay"]);
         let o = eval(&c, false).expect("request could not be built");
+        println!("loading path: rules {}, resources {}; add_filter calls: {:?}; batch twin: {:?}",
+            match c.batch { None => "Engine::from_rules_parametrised".to_string(), Some(k) => format!("Blocker::new on the first {} + add_filter for the rest", k) },
+            if c.store_by_add { "one add_resource call each" } else { "use_resources / from_resources" },
+            o.adds.iter().map(|x| (&x.0, x.1)).collect::<Vec<_>>(), o.batch_twin);
         println!(
             "matching={:?} impl: redirect={:?} matched={} important={}; spec allows {:?}; redirect_opt_matches={} exception_matches={} other_blocker_matches={} rr_important_matches={} enabled_tag_redirect_rules={}",
             o.matching, o.got_redirect, o.got_matched, o.got_important, reference(o.supported, &o.matching, &c.store),
@@ -656,11 +1053,12 @@ fn main() {
     let mut r = Rng::new(a.seed);
     let mut cs = Cases::new(&a.out, "Generated C13_Model");
     let mut sm = Summary::default();
-    sm.rule = "random lists of 1-6 redirect / redirect-rule rules and redirect exceptions over 31 resource names x 29 priority suffixes (weighted towards loadable names and well-formed priorities) (negative, equal, signed, overflowing, malformed), with type/domain/party/important/tag/badfilter/generichide options, mixed with plain blocking rules, plain exceptions and $important rules; resource stores drawn from 10 resources (aliases, gif/binary, fn/javascript, template, two permissioned) plus colliding, invalid-base64, non-UTF-8 and dependency-carrying ones in random order; requests of all type strings on 4 hosts (incl. an unsupported scheme); non-trivial = at least one redirect rule matches the request".into();
+    sm.rule = "random lists of 1-6 redirect / redirect-rule rules and redirect exceptions over 31 resource names x 29 priority suffixes (weighted towards loadable names and well-formed priorities) (negative, equal, signed, overflowing, malformed), with type/domain/party/important/tag/badfilter/generichide options, mixed with plain blocking rules, plain exceptions and $important rules; resource stores drawn from 10 resources (aliases, gif/binary, fn/javascript, template, two permissioned) plus colliding, invalid-base64, non-UTF-8 and dependency-carrying ones in random order; requests of all type strings on 4 hosts (incl. an unsupported scheme); non-trivial = at least one redirect rule matches the request. LOADING PATHS: every list/request/store is evaluated twice - through Engine::from_rules_parametrised (batch) and along a second path: empty Blocker + one Blocker::add_filter call per rule (list order / shuffled), Blocker::new on a prefix + add_filter for the rest, all exceptions (redirect exceptions among them) added last at run time, all redirect / redirect-rule rules and redirect exceptions added at run time after a batch of plain rules, exceptions first; the answers of add_filter ($badfilter refused, duplicate line refused, everything else accepted), the verdict against the specification over the rules in force, against a batch engine over the rules in force, and the filing of run-time rules (category_of) are checked on every path; the exhaustive sweep alternates the three paths. RESOURCE PATHS: stores reach the engine through use_resources / from_resources or through one add_resource call per resource; a quarter of the stores and 300 dedicated sequences are add_resource call sequences with calls rejected for a collision on the name, on the first alias or on a later alias of a multi-alias resource (or for their content), followed by calls that re-use the identifiers of the rejected call; after every call every identifier that occurs anywhere in the sequence is looked up (get_redirect_resource; at the end also from_resources and an engine with one redirect-rule per identifier) and compared with `the resource of the first successful add that declared it` and with the model's from_resources / add_resource (final state, state right after a rejected call, Ok/Err flags)".into();
     let n = 1500 * a.scale;
-    let mut shape_seen: BTreeSet<(u32, bool)> = BTreeSet::new();
+    let mut shape_seen: BTreeSet<(u32, bool, bool)> = BTreeSet::new();
     let mut all: Vec<Case> = vec![];
-    for _ in 0..n {
+    let mut gen_counts: Vec<&'static str> = vec![];
+    for it in 0..n {
         let rules = gen_rules(&mut r);
         let url = if r.chance(1, 5) { gen::url_for(&mut r, &rules[0]) } else { gen_url(&mut r) };
         // never an empty source: "no source + domain= rule" is the C01 finding F2, not a C13 matter
@@ -671,7 +1069,53 @@ fn main() {
                 tags.push(t.to_string());
             }
         }
-        all.push(Case { rules, store: gen_store(&mut r), tags, url, source, ty: gen::request_type(&mut r).to_string(), optimize: r.chance(2, 3) });
+        // a quarter of the stores is a sequence of add_resource calls with rejected calls and re-used identifiers
+        let store = if r.chance(1, 4) { gen_counts.push("store_is_add_sequence_with_rejections"); gen_add_seq(&mut r, RULE_IDS) } else { gen_store(&mut r) };
+        let base = Case { rules, store, tags, url, source, ty: gen::request_type(&mut r).to_string(), optimize: r.chance(2, 3), batch: None, store_by_add: r.chance(1, 2) };
+        // the same rules, resources and request along a second loading path
+        let mut alt = base.clone();
+        alt.store_by_add = r.chance(1, 2);
+        let shuffle = |v: &mut Vec<String>, r: &mut Rng| {
+            for i in (1..v.len()).rev() {
+                let j = r.below(i + 1);
+                v.swap(i, j);
+            }
+        };
+        let is_exc = |l: &String| l.starts_with("@@");
+        let is_red = |l: &String| l.contains("redirect=") || l.contains("redirect-rule=");
+        match it % 6 {
+            0 => { alt.batch = Some(0); gen_counts.push("order_add_filter_in_list_order"); }
+            1 => { shuffle(&mut alt.rules, &mut r); alt.batch = Some(0); gen_counts.push("order_add_filter_shuffled"); }
+            2 => { alt.batch = Some(if alt.rules.len() > 1 { r.range(1, alt.rules.len() - 1) } else { 0 }); gen_counts.push("order_batch_prefix_then_add_filter"); }
+            3 => {
+                // every exception (redirect exceptions among them) arrives at run time, after all other rules
+                let (e, ne): (Vec<String>, Vec<String>) = alt.rules.iter().cloned().partition(is_exc);
+                alt.batch = Some(if r.chance(1, 2) { ne.len() } else { 0 });
+                alt.rules = ne.into_iter().chain(e).collect();
+                gen_counts.push("order_exceptions_added_last_at_run_time");
+            }
+            4 => {
+                // every redirect / redirect-rule rule and redirect exception arrives at run time, after the plain rules
+                let (red, plain): (Vec<String>, Vec<String>) = alt.rules.iter().cloned().partition(is_red);
+                alt.batch = Some(plain.len());
+                let mut red = red;
+                shuffle(&mut red, &mut r);
+                alt.rules = plain.into_iter().chain(red).collect();
+                gen_counts.push("order_redirect_rules_added_at_run_time_after_batch_of_plain_rules");
+            }
+            _ => {
+                // exceptions first (batch), the rules they cancel added afterwards
+                let (e, ne): (Vec<String>, Vec<String>) = alt.rules.iter().cloned().partition(is_exc);
+                alt.batch = Some(if r.chance(1, 2) { e.len() } else { 0 });
+                alt.rules = e.into_iter().chain(ne).collect();
+                gen_counts.push("order_exceptions_first_then_add_filter");
+            }
+        }
+        all.push(base);
+        all.push(alt);
+    }
+    for g in gen_counts {
+        cs.stat(g);
     }
     // exhaustive sweep: every subset of 8 rules on one host x resource stores (x types, thorough)
     let universe = [
@@ -699,7 +1143,9 @@ fn main() {
             }
             for ty in types {
                 let rules: Vec<String> = universe.iter().enumerate().filter(|(i, _)| mask & (1 << i) != 0).map(|(_, l)| l.to_string()).collect();
-                all.push(Case { rules, store: st.clone(), tags: vec![], url: "https://foo.com/x.js".into(), source: "https://example.com/".into(), ty: ty.to_string(), optimize: mask % 2 == 0 });
+                // the sweep alternates between the three loading paths and the two resource paths
+                let batch = match (mask as usize / 2 + si) % 3 { 0 => None, 1 => Some(0), _ => Some(rules.len() / 2) };
+                all.push(Case { rules, store: st.clone(), tags: vec![], url: "https://foo.com/x.js".into(), source: "https://example.com/".into(), ty: ty.to_string(), optimize: mask % 2 == 0, batch, store_by_add: (mask / 4) % 2 == 0 });
             }
         }
     }
@@ -709,7 +1155,7 @@ fn main() {
             cs.stat("skipped_url_outside_domain");
             continue;
         }
-        let Some(o) = eval(&c, i % 4 == 0) else { cs.stat("request_error"); continue };
+        let Some(o) = eval(&c, i % 4 < 2) else { cs.stat("request_error"); continue };
         sm.oracle_evaluations += 1;
         if !o.scan_equals_delivery {
             cs.stat("scan_differs_from_bucket_lookup");
@@ -723,6 +1169,25 @@ fn main() {
         let mut desc = c.json();
         desc["matching"] = json!(o.matching);
         desc["impl"] = json!({"redirect": o.got_redirect, "matched": o.got_matched, "important": o.got_important});
+        cs.stat(match c.batch { None => "path_batch_engine", Some(0) => "path_empty_blocker_add_filter_only", Some(_) => "path_batch_prefix_then_add_filter" });
+        cs.stat(if c.store_by_add { "resources_by_add_resource_calls" } else { "resources_by_use_resources" });
+        for (line, ans, is_red, is_exc, blocks) in &o.adds {
+            cs.stat(match ans { AddAnswer::RefusedBadfilter => "add_filter_refused_badfilter", AddAnswer::RefusedDuplicate => "add_filter_duplicate", AddAnswer::Accepted => "add_filter_accepted" });
+            if *ans == AddAnswer::Accepted && *is_red {
+                cs.stat(if *is_exc { "run_time_added_redirect_exception" } else if *blocks { "run_time_added_redirect" } else { "run_time_added_redirect_rule" });
+                if o.matching.iter().any(|m| &m.2 == line) {
+                    cs.stat(if *is_exc { "run_time_added_redirect_exception_matches_request" } else { "run_time_added_redirect_matches_request" });
+                }
+            }
+        }
+        if c.batch.is_some() {
+            // an exception added at run time cancels an offer of the same resource
+            let cancels = o.matching.iter().any(|m| m.0 && o.adds.iter().any(|x| x.0 == m.2 && x.1 == AddAnswer::Accepted)
+                && m.1.as_ref().map_or(false, |e| o.matching.iter().any(|n| !n.0 && n.1.as_ref().map_or(false, |s| spec_split(s).0 == spec_split(e).0))));
+            if cancels {
+                cs.stat("run_time_added_exception_cancels_an_offer");
+            }
+        }
         cs.stat(if !o.supported { "unsupported_request" } else if o.matching.is_empty() { "no_matching_redirect_rule" } else if o.got_redirect.is_some() { "redirected" } else { "matching_but_no_redirect" });
         if o.got_redirect.is_some() && !o.got_matched {
             cs.stat("redirect_without_block");
@@ -741,16 +1206,66 @@ fn main() {
             copt(&o.got_redirect, |s| hxs(s))
         );
         cs.case(expr, desc, !o.matching.is_empty());
-        for (line, mask, tagged, cat, in_red) in &o.shapes {
-            if shape_seen.insert((*mask, *tagged)) {
-                cs.stat("distinct_rule_shapes");
+        for (line, mask, tagged, cat, in_red, via_add) in &o.shapes {
+            if shape_seen.insert((*mask, *tagged, *via_add)) {
+                cs.stat(if *via_add { "distinct_rule_shapes_filed_by_add_filter" } else { "distinct_rule_shapes" });
                 cs.case(
                     format!("cat_eqb (category_of (mk_shape {} {})) {} && Bool.eqb (in_redirects (mk_shape {} {})) {}", cn(*mask), cbool(*tagged), cat, cn(*mask), cbool(*tagged), cbool(*in_red)),
-                    json!({"rule": line, "mask": mask, "tagged": tagged, "category": cat, "in_redirects": in_red}),
+                    json!({"rule": line, "mask": mask, "tagged": tagged, "category": cat, "in_redirects": in_red, "filed_by": if *via_add { "Blocker::add_filter" } else { "Blocker::new" }}),
                     mask & (1 << 26) != 0,
                 );
             }
         }
+    }
+    // sequences of add_resource calls (rejected calls, re-use of their identifiers) and lookups by
+    // every identifier that ever occurred
+    for _ in 0..(300 * a.scale) {
+        let seq = gen_add_seq(&mut r, SEQ_IDS);
+        let idents = seq_idents(&seq);
+        let acc = spec_accepts(&seq);
+        // state right after a rejected call (the last one), else after a random call
+        let probe = acc.iter().rposition(|x| !*x).unwrap_or_else(|| r.below(seq.len()));
+        let (flags, last, at_probe, fail) = run_add_seq(&seq, &idents, probe);
+        sm.oracle_evaluations += 1;
+        let replay = json!({"adds": seq.iter().map(|x| x.json()).collect::<Vec<_>>(), "probe": probe});
+        if let Some(what) = fail {
+            sm.failure(None, &what, replay.clone());
+        }
+        cs.stat("add_resource_sequences");
+        for k in classify_adds(&seq) {
+            cs.stat(k);
+        }
+        let reuse = classify_adds(&seq).contains(&"seq_accepted_reusing_identifiers_of_a_rejected_add");
+        let store = clist(&seq, |x| x.coq());
+        let pairs = |idents: &[String], got: &[Option<String>]| clist(&idents.iter().zip(got.iter()).collect::<Vec<_>>(), |p| format!("({}, {})", hxs(p.0), copt(p.1, |s| hxs(s))));
+        let mut desc = replay.clone();
+        desc["fn"] = json!("get_redirect_resource after the whole sequence of add_resource calls");
+        desc["accepted"] = json!(flags);
+        desc["lookups"] = json!(idents.iter().zip(last.iter()).collect::<Vec<_>>());
+        cs.case(
+            format!("let st := from_resources {} in forallb (fun p => ostr_eqb (get_redirect_resource st (fst p)) (snd p)) {}", store, pairs(&idents, &last)),
+            desc.clone(),
+            flags.iter().any(|x| !*x),
+        );
+        desc["fn"] = json!(format!("get_redirect_resource right after call #{}", probe));
+        desc["lookups"] = json!(idents.iter().zip(at_probe.iter()).collect::<Vec<_>>());
+        cs.case(
+            format!("let st := from_resources {} in forallb (fun p => ostr_eqb (get_redirect_resource st (fst p)) (snd p)) {}", clist(&seq[..=probe], |x| x.coq()), pairs(&idents, &at_probe)),
+            desc.clone(),
+            !flags[probe],
+        );
+        // which calls the model accepts (the store grows) vs the Ok/Err answers of add_resource
+        desc["fn"] = json!("Ok/Err of every add_resource call");
+        desc.as_object_mut().unwrap().remove("lookups");
+        cs.case(
+            format!(
+                "list_eqb Bool.eqb (snd (fold_left (fun (a : storage * list bool) (x : resource) => let st1 := add_resource (fst a) x in (st1, (snd a ++ [negb (Nat.eqb (length (st_resources st1)) (length (st_resources (fst a))))])%list)) {} (empty_store, []))) {}",
+                store,
+                clist(&flags, |b| cbool(*b).to_string())
+            ),
+            desc,
+            reuse,
+        );
     }
     // Rust's i32 parser (the function split_redirect_priority calls) vs the model's
     for _ in 0..(400 * a.scale) {
